@@ -157,3 +157,12 @@ package metrics
 //@   requires ms != nil
 //@   ensures [no-pending-name-crosses-a-rotation] len(ms.mNameWalState.metricsNames) == 0
 //@ end
+
+// C10: the start-up grouping of metric-name WAL files.  BOUNDED stand-in only
+// (the key is built by string concatenation, outside the verifier's string
+// model): see /verif/bounded/metrics/mnamewalgroups_test.go.
+//@ func extractMNameWALFileInfo
+//@   props C10
+//@   note no proof obligations: this contract only attaches the bounded stand-in
+//@   bounded metrics/mnamewalgroups_test.go Test_Bounded_MNameWalGroups one WAL file for every (shard, segment) pair over {0,1,2,3,11,12,21,23,111,112,211}^2 (121 files): 121 groups, each holding exactly its own file and its own ids
+//@ end
